@@ -43,6 +43,23 @@ def run_property(pid, tier, write=True, root=None):
         traceback.print_exc()
         analysis_error(pid, "checker crashed: see traceback")
         return 2, rep
+    if tier == "thorough":
+        try:
+            from . import selftest, sweeps
+            res = selftest.run_catalogue(pid)
+            summ = selftest.summarise(res)
+            summ["variants"] = [{"id": r["id"], "expect": r["expect"], "outcome": r["outcome"], "fired": r.get("fired")} for r in res]
+            rep.selftest = summ
+            base_clean = not any(i.verdict != "PASS" for i in rep.instances)
+            if summ["failed"] and base_clean:
+                for vid in summ["failed"]:
+                    rep.unk("SELFTEST", {"file": "sverif/catalogue.py", "line": 0, "function": "-", "construct": vid},
+                            "checker self-validation failed on variant %s: the rule set does not behave as documented" % vid)
+            for note in sweeps.run(prog, pid):
+                rep.notes.append(note)
+                print("  NOTE " + note)
+        except Inconclusive as e:
+            rep.unk("SELFTEST", {"file": "-", "line": 0, "function": "-", "construct": "catalogue"}, "self-validation could not run: %s" % e.why)
     for rel, ln, what in forb:
         rep.unk("DYNAMIC-FEATURE", {"file": rel, "line": ln, "function": "-", "construct": what},
                 "construct outside the modelled Python subset")
